@@ -609,6 +609,7 @@ pub fn exec_line(sess: &mut Session, line: &str) -> String {
             }
         }
         "@fault_sweep" => crate::faults::sweep(toks[1].parse().unwrap(), toks[2], toks[3]),
+        "oracle_only_session" => "ok".to_string(),
         "@ffi_check" => {
             // the C interface on the bytes of the medium as they are now: it must not abort, and
             // must report what the Rust API reports
@@ -681,7 +682,44 @@ pub fn exec_line(sess: &mut Session, line: &str) -> String {
                 }
             };
             let st = medium.stats.borrow().clone();
-            format!("{res} writes={} same={}", st.writes, (medium.snapshot_bytes() == sess.open_bytes) as i32)
+            // the same read-only session through the path-based entry points (`msi::open`,
+            // `msi::open_rw`) on a file holding the bytes the package was opened from
+            let file_same = {
+                let path = std::env::temp_dir().join(format!("msi_verif_ro_{}.msi", std::process::id()));
+                let mut same = true;
+                for rw in [false, true] {
+                    if std::fs::write(&path, &sess.open_bytes).is_err() {
+                        same = false;
+                        break;
+                    }
+                    let opened = if rw { msi::open_rw(&path) } else { msi::open(&path) };
+                    if let Ok(mut p) = opened {
+                        let names: Vec<String> = p.tables().map(|t| t.name().to_string()).collect();
+                        for n in names {
+                            if let Ok(rows) = p.select_rows(msi::Select::table(n.as_str())) {
+                                let _ = rows.count();
+                            }
+                        }
+                        let _ = p.summary_info().author().map(|s| s.len());
+                        match mode {
+                            "flush" if rw => {
+                                let _ = p.flush();
+                                drop(p);
+                            }
+                            "into_inner" => {
+                                let _ = p.into_inner();
+                            }
+                            _ => drop(p),
+                        }
+                    }
+                    if std::fs::read(&path).map(|b| b != sess.open_bytes).unwrap_or(true) {
+                        same = false;
+                    }
+                }
+                let _ = std::fs::remove_file(&path);
+                same
+            };
+            format!("{res} writes={} same={} file-same={}", st.writes, (medium.snapshot_bytes() == sess.open_bytes) as i32, file_same as i32)
         }
         "@summary_raw" => {
             // the raw bytes of the summary stream on the medium right now (cfb only)
